@@ -156,11 +156,11 @@ func ApplyScalarMove(s *secp256k1.Scalar, mv ScalarMove) {
 	case "square":
 		s.Square()
 	case "set-nil":
-		s.Set(nil)
+		s.Set(nil).Set(NilScal)
 	case "mul-nil":
-		s.Multiply(nil)
+		s.Multiply(NilScal)
 	case "pow-nil":
-		s.Pow(nil)
+		s.Pow(nil).Pow(NilScal)
 	case "decode-rejected":
 		_ = s.Decode(oracle.Bytes32(to)[:31])
 	default:
@@ -178,6 +178,9 @@ type ElemMove struct {
 	// ZeroRecv: the object is a zero-value Element (new(Element), never initialised) instead of one holding From; only
 	// used with mutators that overwrite the receiver completely.
 	ZeroRecv bool `json:"zero_value_receiver,omitempty"`
+	// Bad, BadDec (decode-rejected): the input (hex) that must be rejected, and the decoder it is given to.
+	Bad    string `json:"bad,omitempty"`
+	BadDec string `json:"bad_decoder,omitempty"`
 }
 
 // Start returns the object the move begins with.
@@ -243,8 +246,11 @@ func PlanElemMove(via string, r *gen.Rng) ElemMove {
 	case "mul-1":
 		mv.K = "1"
 		to = from.P
-	case "add-nil", "sub-nil", "decode-rejected":
+	case "add-nil", "sub-nil":
 		to = from.P
+	case "decode-rejected":
+		to = from.P
+		mv.Bad, mv.BadDec = planRejected(aux.P, r)
 	default:
 		panic("harness: unknown element move " + via)
 	}
@@ -307,20 +313,102 @@ func ApplyElemMove(e *secp256k1.Element, mv ElemMove) {
 	case "mul-0":
 		e.Multiply(secp256k1.NewScalar())
 	case "mul-nil":
-		e.Multiply(nil)
+		e.Multiply(NilScal)
 	case "add-nil":
-		e.Add(nil)
+		e.Add(nil).Add(NilElem)
 	case "sub-nil":
-		e.Subtract(nil)
+		e.Subtract(nil).Subtract(NilElem)
 	case "decode-identity":
 		must(e.Decode([]byte{0}))
 	case "decode-rejected":
 		bad := oracle.EncC(mv.Aux.P.Pt())
 		bad[0] = 5
-		_ = e.Decode(bad)
+
+		if mv.Bad != "" {
+			bad = UnH(mv.Bad)
+		}
+
+		var err error
+
+		switch mv.BadDec {
+		case "", "Decode":
+			err = e.Decode(bad)
+		case "DecodeCompressed":
+			err = e.DecodeCompressed(bad)
+		case "DecodeUncompressed":
+			err = e.DecodeUncompressed(bad)
+		case "UnmarshalBinary":
+			err = e.UnmarshalBinary(bad)
+		case "DecodeHex":
+			err = e.DecodeHex(H(bad))
+		case "DecodeCoordinates":
+			err = e.DecodeCoordinates([32]byte(bad[1:33]), [32]byte(bad[33:65]))
+		default:
+			panic("harness: unknown decoder " + mv.BadDec)
+		}
+
+		if err == nil {
+			// accepting it is a decoding defect (C03's business); a history built on it says nothing about this property
+			panic("harness: element move decode-rejected: " + mv.BadDec + " accepted the invalid encoding " + mv.Bad)
+		}
 	default:
 		panic("harness: unknown element move " + mv.Via)
 	}
+}
+
+// planRejected draws an input that an element decoder must reject, failing at a different stage of the decoder each time
+// (length, prefix, range of x, x not on the curve, range of y, curve equation), and the decoder to give it to.
+func planRejected(p oracle.Pt, r *gen.Rng) (string, string) {
+	if p.IsInf() {
+		p = oracle.G()
+	}
+
+	small := func() *big.Int { return new(big.Int).Add(oracle.P, big.NewInt(int64(r.Intn(1000)))) } // in [p, 2^256)
+	offX := new(big.Int).Set(p.X)
+
+	for {
+		if _, ok := oracle.LiftX(offX, 0); !ok {
+			break
+		}
+
+		offX = oracle.FAdd(offX, big.NewInt(1))
+	}
+
+	c33 := func(pfx byte, x *big.Int) []byte { return append([]byte{pfx}, oracle.Bytes32(x)...) }
+	u65 := func(pfx byte, x, y *big.Int) []byte { return append(c33(pfx, x), oracle.Bytes32(y)...) }
+
+	var (
+		bad  []byte
+		decs []string
+	)
+
+	comp := []string{"Decode", "DecodeCompressed", "UnmarshalBinary", "DecodeHex"}
+	unc := []string{"Decode", "DecodeUncompressed", "UnmarshalBinary", "DecodeHex", "DecodeCoordinates"}
+
+	switch r.Intn(10) {
+	case 0:
+		bad, decs = c33(5, p.X), comp
+	case 1:
+		bad, decs = c33(2+byte(r.Intn(2)), small()), comp // x not reduced
+	case 2:
+		bad, decs = c33(2+byte(r.Intn(2)), offX), comp // x^3+7 not a square
+	case 3:
+		bad, decs = u65(4, p.X, oracle.FAdd(p.Y, big.NewInt(1))), unc // off the curve
+	case 4:
+		bad, decs = u65(4, p.X, small()), unc // y not reduced
+	case 5:
+		bad, decs = u65(4, small(), p.Y), unc // x not reduced
+	case 6:
+		bad, decs = oracle.EncC(p)[:32], comp[:3] // one byte short
+	case 7:
+		bad, decs = append(oracle.EncU(p), 0), unc[:3] // one byte long
+	case 8:
+		bad, decs = u65(4, offX, p.Y), unc // x on the twist, some y
+	default:
+		bad, decs = u65(6+byte(p.Y.Bit(0)), p.X, p.Y), unc[:4] // SEC1 hybrid form
+	}
+
+	return H(bad), decs[r.Intn(len(decs))]
 }
 
 var noiseExceptional = func() []*big.Int {
